@@ -115,7 +115,27 @@ def gen_script(rng, futures=True, max_pre=12, allow_cycles=True):
     if mode < 0.35:
         rng.shuffle(order)                     # one schedule([...]) call, list not in creation order
     pre_mode = "single" if mode >= 0.6 else "batch"
-    return dict(prog=prog, pre=pre, start=0, end=end, fuel=rng.choice([60, 150, 300]), pre_mode=pre_mode, pre_order=order)
+    # a quarter of the scripts start at a non-zero instant; the horizon is then given either as end_time
+    # or as duration= (end_time = start_time + duration)
+    start = 0
+    if rng.random() < 0.25:
+        start = rng.choice([1_000_000_000, 2_500_000_000, 7])
+        for ps in pre:
+            ps["time"] += start
+        if end is not None:
+            end += start
+    ctor = "duration" if (end is not None and rng.random() < 0.4 and int(((end - start) / 1e9) * 1e9) == end - start
+                          and end > start) else "end_time"
+    return dict(prog=prog, pre=pre, start=start, end=end, fuel=rng.choice([60, 150, 300]), pre_mode=pre_mode, pre_order=order,
+                ctor=ctor)
+
+
+def horizon_kwargs(script):
+    """Simulation(...) keyword arguments for the run horizon of a script."""
+    from happysimulator.core.temporal import Instant
+    if script.get("ctor") == "duration" and script["end"] is not None:
+        return dict(start_time=Instant(script["start"]), duration=(script["end"] - script["start"]) / 1e9)
+    return dict(start_time=Instant(script["start"]), end_time=None if script["end"] is None else Instant(script["end"]))
 
 
 # --------------------------------------------------------------------------- interpretation on the real code
@@ -257,7 +277,9 @@ def build_world(script):
             for s in steps:
                 if s[0] == "yield":
                     effs = [mk_event(self.now.nanoseconds, e) for e in s[3]]
-                    if not effs:
+                    if not effs and s[4] == "list" and self.idx % 2 == 0:
+                        got = yield s[1], NO_EVENTS      # `yield delay, NO_EVENTS`: the shared empty list as side effects
+                    elif not effs:
                         got = yield s[1]
                     elif s[4] == "single":
                         got = yield s[1], effs[0]
@@ -349,9 +371,7 @@ def _run_script_once(script, mode, control_script, wall):
     if mode == "recorder":
         from happysimulator.instrumentation.recorder import InMemoryTraceRecorder
         kwargs["trace_recorder"] = InMemoryTraceRecorder()
-    sim = Simulation(start_time=Instant(script["start"]),
-                     end_time=None if script["end"] is None else Instant(script["end"]),
-                     entities=list(w.entities), **kwargs)
+    sim = Simulation(entities=list(w.entities), **horizon_kwargs(script), **kwargs)
     schedule_pre(sim, w, script)
     pops = []
     w.sim_clock[0] = sim._clock
@@ -530,9 +550,7 @@ def _run_session_once(script, cmds, hooks, wall):
     from hsverif.util import Timeout, time_limit
 
     w = build_world(script)
-    sim = Simulation(start_time=Instant(script["start"]),
-                     end_time=None if script["end"] is None else Instant(script["end"]),
-                     entities=list(w.entities))
+    sim = Simulation(entities=list(w.entities), **horizon_kwargs(script))
     schedule_pre(sim, w, script)
     pops = []
     w.sim_clock[0] = sim._clock
